@@ -43,7 +43,7 @@ Proof using Hexp Husage.
   assert (Hhas : has_conn c s = true) by (unfold has_conn; rewrite Hl; reflexivity).
   rewrite Hhas.
   rewrite (on_message_eval cfg c msg o s TClose Ht).
-  set (s0 := set_log s (LFrame c (FAck (m_id msg)) (is_clean s) :: log s)).
+  set (s0 := set_log s (LFrame c (FAck (m_id msg)) (is_clean s) (now s) :: log s)).
   assert (Hc0 : conn_of s0 c = cs).
   { unfold conn_of, s0. cbn [conns set_log]. rewrite Hl. reflexivity. }
   rewrite (dispatch_bound cfg c TClose msg o s0 a side)
